@@ -930,6 +930,7 @@ type nsGen struct {
 	anyVars  []string
 	varAsset map[string]string // monetary var -> asset
 	edge     bool              // literal assets at the edge of the lexer rule allowed
+	shared   bool              // C26: stay inside the language both runtimes accept (no deliberate faults)
 	depth    int
 }
 
@@ -961,7 +962,7 @@ func (g *nsGen) acc(world bool) nsAcc {
 	if len(g.accVars) > 0 && g.r.Chance(25) {
 		return nsAcc{Var: true, S: Pick(g.r, g.accVars)}
 	}
-	if g.r.Chance(2) {
+	if g.r.Chance(2) && !g.shared {
 		return nsAcc{Var: true, S: "undeclared"}
 	}
 	return g.accLit(world)
@@ -977,7 +978,7 @@ func (g *nsGen) asset(A string) nsAsset {
 
 // a monetary expression in asset A (mostly), amounts small
 func (g *nsGen) mon(A string) *nsMon {
-	if g.r.Chance(3) {
+	if g.r.Chance(3) && !g.shared {
 		A = Pick(g.r, nsAssets) // asset mismatch
 	}
 	k := g.r.Intn(100)
@@ -985,7 +986,7 @@ func (g *nsGen) mon(A string) *nsMon {
 	case k < 12 && len(g.monVars) > 0:
 		var cands []string
 		for _, v := range g.monVars {
-			if g.varAsset[v] == A || g.r.Chance(5) {
+			if g.varAsset[v] == A || (g.r.Chance(5) && !g.shared) {
 				cands = append(cands, v)
 			}
 		}
@@ -996,7 +997,7 @@ func (g *nsGen) mon(A string) *nsMon {
 		g.depth++
 		defer func() { g.depth-- }()
 		return &nsMon{K: "add", L: g.mon(A), R: g.monLeaf(A)}
-	case k < 22 && g.depth < 2:
+	case k < 22 && g.depth < 2 && !g.shared:
 		g.depth++
 		defer func() { g.depth-- }()
 		return &nsMon{K: "sub", L: g.mon(A), R: g.monLeaf(A)}
@@ -1014,7 +1015,7 @@ func (g *nsGen) monLeaf(A string) *nsMon {
 // portions: constants summing to 1, or constants/variables plus remaining; rarely malformed
 func (g *nsGen) portions(n int) []nsPortion {
 	ps := make([]nsPortion, n)
-	bad := g.r.Chance(5)
+	bad := g.r.Chance(5) && !g.shared
 	if g.r.Chance(45) && !bad {
 		ws := make([]int64, n)
 		var tot int64
@@ -1147,7 +1148,8 @@ func (g *nsGen) val() nsVal {
 func genNsCase(r *Rng, profile string) *nsCase {
 	c := &nsCase{Given: map[string]nsValue{}, Bal: map[[2]string]*big.Int{}, Meta: map[[2]string]nsValue{}}
 	g := &nsGen{r: r, c: c, varAsset: map[string]string{}}
-	g.edge = profile == "edge" || r.Chance(4)
+	g.shared = profile == "shared"
+	g.edge = profile == "edge" || (r.Chance(4) && !g.shared)
 	// store: balances (some negative, some huge), metadata
 	for _, a := range nsAccNames {
 		for _, as := range append(append([]string{}, nsAssets...), "USD_X", "EUR") {
@@ -1168,8 +1170,11 @@ func genNsCase(r *Rng, profile string) *nsCase {
 	c.Meta[[2]string{"b", "acc"}] = nsValue{Ty: "account", S: Pick(r, []string{"a", "m:2"})}
 	c.Meta[[2]string{"a", "fee"}] = nsValue{Ty: "portion", N: big.NewInt(int64(r.Intn(4))), D: big.NewInt(8)}
 	c.Meta[[2]string{"a", "limit"}] = nsValue{Ty: "monetary", S: Pick(r, nsAssets), N: big.NewInt(int64(r.Intn(100)))}
-	if r.Chance(5) {
+	if r.Chance(5) && profile != "shared" {
 		c.Meta[[2]string{"a", "acc"}] = nsValue{Ty: "account", S: "not an address"}
+	}
+	if profile == "shared" {
+		c.Meta[[2]string{"a", "acc"}] = nsValue{Ty: "account", S: Pick(r, []string{"b", "m:1", "c"})}
 	}
 	// variables
 	if r.Chance(55) {
@@ -1179,7 +1184,11 @@ func genNsCase(r *Rng, profile string) *nsCase {
 			g.anyVars = append(g.anyVars, name)
 		}
 		if r.Chance(60) {
-			addPlain("account", "acc", nsValue{Ty: "account", S: Pick(r, []string{"a", "b", "v:1", "world", "c"})})
+			accv := Pick(r, []string{"a", "b", "v:1", "world", "c"})
+			if g.shared && accv == "world" {
+				accv = "v:3"
+			}
+			addPlain("account", "acc", nsValue{Ty: "account", S: accv})
 			g.accVars = append(g.accVars, "acc")
 		}
 		if r.Chance(30) {
@@ -1233,7 +1242,7 @@ func genNsCase(r *Rng, profile string) *nsCase {
 			g.monVars = append(g.monVars, "bal")
 			g.varAsset["bal"] = A
 			g.anyVars = append(g.anyVars, "bal")
-			if r.Chance(12) || profile == "nilbal" {
+			if (r.Chance(12) && !g.shared) || profile == "nilbal" {
 				// a second balance() on (mostly) the same account: exercises UnresolvedResourceBalances being keyed by address
 				acc2 := acc
 				if r.Chance(30) {
@@ -1248,6 +1257,7 @@ func genNsCase(r *Rng, profile string) *nsCase {
 		}
 		// faults in the given variables
 		switch k := r.Intn(100); {
+		case g.shared:
 		case k < 3 && len(c.Given) > 0:
 			for n := range c.Given {
 				delete(c.Given, n)
@@ -1713,6 +1723,10 @@ func monitorC26(c *nsCase, script string, out *Out, cs string) {
 	}
 	out.Stats["c26_machine_"+m.Class]++
 	out.Stats["c26_interp_"+i.Class]++
+	if m.Class != i.Class && (strings.HasPrefix(m.Err, "parse: ") || strings.HasPrefix(i.Err, "parse: ")) {
+		out.Stats["c26_outside_shared_subset"]++ // one front end rejects the text: not in the language both support
+		return
+	}
 	if m.Class != i.Class {
 		ok, er := m, i
 		who := "machine succeeds, interpreter fails: " + i.Err
@@ -1746,10 +1760,27 @@ func monitorC26(c *nsCase, script string, out *Out, cs string) {
 
 // classification of a machine/interpreter disagreement by the language feature involved (tags feed known findings)
 func nsC26Tag(c *nsCase, msg string) string {
-	return msg + " " + nsC26Feature(c)
+	return msg + " " + nsC26Class(msg)
 }
 
-var nsC26Feature = func(c *nsCase) string { return "[c26-diff]" }
+var nsC26Feature = func(c *nsCase) string { return "" }
+
+func nsC26Class(msg string) string {
+	switch {
+	case strings.Contains(msg, "postings differ"):
+		return "[c26-postings-differ]"
+	case strings.Contains(msg, "metadata differ"):
+		return "[c26-metadata-differ]"
+	case strings.Contains(msg, "machine fails") && strings.Contains(msg, "different assets"):
+		return "[c26-asset-mismatch-strictness]"
+	case strings.Contains(msg, "machine fails") && strings.Contains(msg, "insufficient funds"):
+		return "[c26-machine-insufficient-only]"
+	case strings.Contains(msg, "machine fails"):
+		return "[c26-machine-fails-only]"
+	default:
+		return "[c26-interpreter-fails-only]"
+	}
+}
 
 // ---------------------------------------------------------------- commands
 func cmdNs(args []string) int {
